@@ -49,7 +49,7 @@ def run(tier, seed, replay=None):
                 "truncated; empty; garbage) and a live unit of the class; effect = new unit / state change / runner pid gone / directory removed / "
                 "stream bytes received, from snapshots taken over the Unix socket and the file system; distinct = distinct (vector, token variant, "
                 "request form)" % inst,
-        "samples": res["samples"][:6], "exhaustive": True, "vectors": nvec, "instances_per_vector": inst,
+        "samples": (res.get("samples") or [{"note": "run stopped before sampling"}])[:6], "exhaustive": True, "vectors": nvec, "instances_per_vector": inst,
         "counters": c, "witnesses": wit,
         "tlc": {"spec": "ControlSession.tla", "cfg": "ControlSession_c15.cfg", "generated": r.generated, "distinct": r.distinct, "wall_s": round(r.wall, 1)},
     }
